@@ -21,6 +21,11 @@ OUTSIDE = {
  "r13-C02-v2": "what a capture limit with a leading zero means is not said",
  "r13-C01-v1": "needs a refused registration: C01 speaks of registered sets (C08 reports it)",
  "r13-C13-v2": "needs a before-function that panics: excluded in C13 (C15 reports it)",
+ "r14-C01-v1": "the defect is in Group: C01 registers flat route sets (C11 reports it)",
+ "r14-C01-v2": "needs a refused registration: C01 speaks of registered sets (C08 reports it)",
+ "r14-C03-v1": "needs a before-function that panics: none in C03 (C13 and C15 report it)",
+ "r14-C06-v1": "the README's second EBNF lets a parameter follow a regex value without a comma: accept / reject is open there (second review)",
+ "r14-C18-v2": "what an accessor returns for a well-formed number out of range is declared unspecified (assumption of C18)",
 }
 rows = []
 for d in sorted(glob.glob(os.path.join(VERIF, "seeded", "*"))):
